@@ -263,6 +263,31 @@ where
             let mut tr = Tracker::new(input);
             let _ = T::try_parse_with(input, &mut stack, &mut tr);
             let (pos, attempts) = tr.finish();
+            // the RENDERED report says what the tracker holds: per enclosing rule, the rules that failed under positive
+            // polarity are the ones called "expected", those that matched under a negative predicate "unexpected"
+            if let Some(msg) = &e_fp {
+                for (k, (posv, negv, _sp)) in attempts.iter() {
+                    let mut pv = posv.clone();
+                    pv.sort();
+                    pv.dedup();
+                    let mut nv = negv.clone();
+                    nv.sort();
+                    nv.dedup();
+                    let mut want = match (pv.is_empty(), nv.is_empty()) {
+                        (true, true) => "Unknown error (no rule tracked)".to_string(),
+                        (false, true) => format!("Expected {:?}", pv),
+                        (true, false) => format!("Unexpected {:?}", nv),
+                        (false, false) => format!("Unexpected {:?}, expected {:?}", nv, pv),
+                    };
+                    if let Some(u) = k {
+                        want.push_str(&format!(", by {:?}", u));
+                    }
+                    want.push('.');
+                    if !msg.contains(&want) {
+                        probs.push(format!("rendered report lacks the line {:?} (expected = failed under positive polarity {:?}, unexpected = matched under a negative predicate {:?}): {:?}", want, pv, nv, msg));
+                    }
+                }
+            }
             for (_k, (posv, negv, _sp)) in attempts.iter() {
                 for r in posv {
                     if let (Some(m0), Some(m1)) = (audit(r.idx(), 0, pos.pos()), audit(r.idx(), 1, pos.pos())) {
